@@ -16,6 +16,8 @@ THEOREMS = [
     "Cog.Sem.JSOut.C12_constraint_semantics_carried",
     "Cog.Sem.JSOut.C12_values_validate_node_partial",
     "Cog.Sem.JSOut.C12_values_validate_partial",
+    "Cog.Sem.JSOut.C12_values_validate_same_ir_partial",
+    "Cog.Sem.JSOut.emit_describes",
     "Cog.Sem.JSOut.C12_values_validate_counterexample_any",
     "Cog.Sem.JSOut.C12_values_validate_counterexample_required_nullable",
     "Cog.Sem.JSOut.C12_values_validate_counterexample_same_name",
